@@ -174,6 +174,13 @@ func genScript(r *hx.Rng, marker int, py bool) string {
 		// marker not on the first line
 		lines[0], lines[len(lines)-1] = lines[len(lines)-1], lines[0]
 	}
+	if r.Chance(1, 8) {
+		// closing braces (a nested dict literal, a Go template) BEFORE the first placeholder
+		if py {
+			return "x = {'a': {'" + m + "': 1}}\nprint('" + r.Pick(placeholders[:4]) + "')"
+		}
+		return "echo '{{.Id}}' " + m + "\necho " + r.Pick(placeholders[:4]) + " | cat"
+	}
 	if !py && r.Chance(1, 8) {
 		// a script that BEGINS with a placeholder and ENDS with closing braces (a Go template
 		// argument): it is a script all the same, not "one placeholder"
